@@ -154,6 +154,22 @@ func c03Streams(a *vh.Args) []probeStream {
 	out = append(out, probeStream{"genuine-obfs4-other-phantom", clientFlight(regSpec{secret: 13, tt: pb.TransportType_Obfs4, params: gp}), false, nil})
 	// genuine flights for the secrets of THIS phantom with one bit flipped in each structural region
 	flip := func(name string, fl []byte, pos []int) {
+		if a.Thorough() {
+			// thorough: one flipped bit at every byte position of short flights, every 8th position of long ones
+			step := 1
+			if len(fl) > 160 {
+				step = 8
+			}
+			seen := map[int]bool{}
+			for _, p := range pos {
+				seen[p] = true
+			}
+			for p := 0; p < len(fl); p += step {
+				if !seen[p] {
+					pos = append(pos, p)
+				}
+			}
+		}
 		for _, p := range pos {
 			if p < 0 || p >= len(fl) {
 				continue
@@ -186,6 +202,8 @@ func c03Streams(a *vh.Args) []probeStream {
 	return out
 }
 
+var c03Thorough bool
+
 func c03Cuts(n int, extra []int) [][]int {
 	th := []int{1, 16, 17, 21, 31, 32, 33, 63, 64, 65, 69, 70, 72, 78, 80, 81, 85, 86, 96, 4095, 4096, 4097, 8191, 8192}
 	var set []int
@@ -202,6 +220,22 @@ func c03Cuts(n int, extra []int) [][]int {
 	out := [][]int{nil}
 	for _, c := range set {
 		out = append(out, []int{c})
+	}
+	if c03Thorough {
+		// thorough: 3-cuts over the main thresholds
+		var main []int
+		for _, t := range []int{1, 16, 32, 64, 70, 4096, 8192} {
+			if t < n {
+				main = append(main, t)
+			}
+		}
+		for i := 0; i < len(main); i++ {
+			for j := i + 1; j < len(main); j++ {
+				for k := j + 1; k < len(main); k++ {
+					out = append(out, []int{main[i], main[j], main[k]})
+				}
+			}
+		}
 	}
 	for i := 0; i < len(set); i++ {
 		for j := i + 1; j < len(set); j++ {
@@ -344,6 +378,7 @@ func verifC03(a *vh.Args) {
 	}
 	quiet()
 	e := venum.New(fmt.Sprintf("probes:shard%d/%d", a.ShardI, a.ShardN), a)
+	c03Thorough = a.Thorough()
 	streams := c03Streams(a)
 	regKinds := []string{"none", "unvalidated", "min", "prefix", "obfs4", "mixed3"}
 	sleepPath := map[string]bool{}
@@ -372,6 +407,9 @@ func verifC03(a *vh.Args) {
 				gapSets := [][]time.Duration{{0}}
 				if len(c) > 0 {
 					gapSets = [][]time.Duration{{0}, {time.Second}, {4900 * time.Millisecond, 0}}
+					if a.Thorough() {
+						gapSets = append(gapSets, []time.Duration{2400 * time.Millisecond, 2500 * time.Millisecond}, []time.Duration{0, 4999 * time.Millisecond}, []time.Duration{9 * time.Second})
+					}
 				}
 				for _, g := range gapSets {
 					sg = append(sg, segm{fmt.Sprintf("cuts=%v;gaps=%v", c, g), split(st.data, c), g})
